@@ -19,6 +19,26 @@ def message_shapes(shapes):
     return out
 
 
+def padded_middle(t):
+    from shapes import ssize, is_sized
+
+    def lst(fs):
+        if len(fs) < 3:
+            return False
+        pos = 0
+        for i, f in enumerate(fs[:-1]):
+            a = align(f)
+            if i > 0 and pos % a != 0:
+                return True
+            pos = (pos + a - 1) // a * a + (ssize(f) if is_sized(f) else 0)
+        return False
+    if t[0] == 'struct':
+        return lst(t[2])
+    if t[0] == 'enum':
+        return any(lst(v) for v in t[4])
+    return False
+
+
 def compositions(rng, n, k):
     """k random chunk sizes >= 1 (the pipe clips them)"""
     return [rng.choice([1, 1, 2, 3, 5, 8, 13, 64]) for _ in range(k)]
@@ -33,7 +53,12 @@ def stage1(shapes, seed, tier='quick'):
     # the fixed shapes come first in the corpus: prefer them, then random ones
     pick = ms[:70]
     rng.shuffle(pick)
-    pick = pick[:nshapes]
+    # message types whose field list has padding in front of a middle field (three or more fields): a minimum size
+    # computed without that padding lets a truncated message through
+    from shapes import is_sized
+    prio = [(sid, t) for sid, t in ms if padded_middle(t) and not is_sized(t)][:3] + \
+           [(sid, t) for sid, t in ms if padded_middle(t) and is_sized(t) and t[0] == 'enum'][:1]
+    pick = prio + [x for x in pick if x not in prio][:nshapes - len(prio)]
     for sid, t in pick:
         nlists = 2 if tier == 'quick' else 4
         for j in range(nlists):
